@@ -264,8 +264,20 @@ def f_not(f):
     if f[0] == "F":
         return ("T",)
     if f[0] == "cmp":
-        neg = {"==": "!=", "!=": "==", "<": ">=", ">=": "<", ">": "<=", "<=": ">"}
-        return ("cmp", neg[f[1]], f[2], f[3])
+        # canonical comparison operators are == != < <= only
+        op, a, b = f[1], f[2], f[3]
+        if op == "==":
+            return ("cmp", "!=", a, b)
+        if op == "!=":
+            return ("cmp", "==", a, b)
+        if op == "<":       # !(a < b)  ==  b <= a
+            return ("cmp", "<=", b, a)
+        if op == "<=":      # !(a <= b) ==  b < a
+            return ("cmp", "<", b, a)
+        if op == ">":
+            return ("cmp", "<=", a, b)
+        if op == ">=":
+            return ("cmp", "<", a, b)
     return ("not", f)
 
 
@@ -328,6 +340,7 @@ class Env:
     def __init__(self, fn_body=None):
         self.defs = {}      # local key 'l:name#id' -> init expr
         self.assigned = set()
+        self.byref_only = set()      # locals marked assigned only because they are passed by non-const reference
         if fn_body is not None:
             self.scan(fn_body)
 
@@ -362,7 +375,9 @@ class Env:
                     if t.endswith("&") and not t.startswith("const ") and not t.endswith("&&"):
                         p = path(a)
                         if p and len(p) == 1:
-                            self.assigned.add(p[0])
+                            if p[0] not in self.assigned:
+                                self.assigned.add(p[0])
+                                self.byref_only.add(p[0])
 
     def definition(self, p):
         """Initialiser of a never-reassigned local, else None."""
@@ -647,6 +662,19 @@ def leaves_function(n):
     return False
 
 
+LOOP_CONDS = [False]
+
+
+def guarded_statements_lc(body, env=None, base=("T",)):
+    """Like guarded_statements, but the condition of an enclosing while/for loop is added to the guard of
+    the statements in its body (it holds at body entry; callers accept that a body may invalidate it)."""
+    LOOP_CONDS[0] = True
+    try:
+        yield from list(_gs(body, env, base, ()))
+    finally:
+        LOOP_CONDS[0] = False
+
+
 def guarded_statements(body, env=None, base=("T",)):
     """Yield (stmt_or_expr_statement, guard formula, loop stack) for every *leaf* statement in
     structured order.  Guard = conjunction of enclosing if-conditions (with polarity) and the
@@ -682,7 +710,12 @@ def _gs(n, env, g, loops):
         yield ({"k": "LoopHead", "node": n, "l": n.get("l")}, g, loops)
         if k == "For" and n.get("init") is not None:
             yield from _gs(n["init"], env, g, loops)
-        yield from _gs(n.get("body"), env, g, loops + (n,))
+        gb = g
+        if LOOP_CONDS[0] and k in ("While", "For") and n.get("cond") is not None:
+            gb = f_and(g, cond(n["cond"], env))
+        yield from _gs(n.get("body"), env, gb, loops + (n,))
+        if LOOP_CONDS[0] and k == "For" and n.get("inc") is not None:
+            yield (n["inc"], gb, loops + (n,))
         return
     if k == "Switch":
         yield ({"k": "SwitchHead", "node": n, "l": n.get("l")}, g, loops)
